@@ -121,7 +121,8 @@ def status_reports(draw, extended_eid=False):
     for _ in range(4):
         asserted = draw(st.booleans())
         if asserted and want_time and draw(st.booleans()):
-            status.append([True, draw(uints())])
+            # DTN time 0 ("unknown") is what a clock-less reporter writes: make it frequent
+            status.append([True, draw(st.one_of(st.just(0), uints(), uints()))])
         else:
             status.append([asserted])
     reason = draw(st.sampled_from([0, 1, 2, 3, 4, 5, 6, 7, 8, 9, 10, 11, 12, 13, 14, 15, 16]))
